@@ -101,11 +101,12 @@ def split_top(s, sep=','):
 
 # ------------------------------------------------------------------ AST
 class Place:
-    __slots__ = ('local', 'proj')
+    __slots__ = ('local', 'proj', 'ty')
 
-    def __init__(self, local, proj=()):
+    def __init__(self, local, proj=(), ty=None):
         self.local = local          # '_5'
         self.proj = tuple(proj)     # steps: ('deref',) ('field', i) ('downcast', 'Some') ('index', '_7') ('cindex', i)
+        self.ty = ty                # type annotation of the outermost field projection, if any
 
     def __repr__(self):
         return 'P(%s%s)' % (self.local, ''.join('/' + ':'.join(map(str, p)) for p in self.proj))
@@ -158,7 +159,7 @@ def _place(s, i):
                     raise MirUnsupported('field proj: ' + s)
                 # type runs to the paren matching s[i]
                 k = match_close(s, i)
-                base, j = Place(inner.local, inner.proj + (('field', int(m.group(1))),)), k + 1
+                base, j = Place(inner.local, inner.proj + (('field', int(m.group(1))),), s[j + m.end():k].strip()), k + 1
             else:
                 raise MirUnsupported('place: ' + s)
     else:
